@@ -104,7 +104,9 @@ fn check_content(ctx: &Ctx, out: &mut CaseOut, dir: &Path, cfg: &Cfg, label: &st
     }
     // stdout mode on files prints UTF-8 whatever the file's encoding: compare only for UTF-8 cases
     let mut expect = format!("{rel}:\n").into_bytes();
-    expect.extend_from_slice(&reference);
+    // (files are concatenated as text: a byte-order mark of the file is not repeated there)
+    const BOM: &[u8] = &[0xEF, 0xBB, 0xBF];
+    expect.extend_from_slice(if content.starts_with(BOM) { reference.strip_prefix(BOM).unwrap_or(&reference) } else { &reference });
     expect.push(b'\n');
     let utf8_case = ENC_ARGS.with(|e| e.borrow().is_empty());
     if utf8_case && r.ok() && r.stdout != expect {
